@@ -16,6 +16,7 @@
 #include <fcntl.h>
 #include <sys/mman.h>
 #include <sys/resource.h>
+#include <sys/wait.h>
 #include <unistd.h>
 
 #include "judge.hpp"
@@ -420,6 +421,15 @@ namespace
          std::printf( c == 0 ? "NOT-REPRODUCED (no violation)\n" : "DIFFERENT outcome than recorded (class %d)\n", c );
          return c == 0 ? 0 : 2;
       }
+      if( !a.num( "dump", 0 ) && !a.num( "inprocess", 0 ) ) {
+         // judge in a child first: the job may also contain an access that ends the process
+         const int c = judge_forked( j, oracle );
+         if( c == 77 || c == 99 ) {
+            std::printf( "case: %s\nthe run also ends the process (%s) before or after the recorded violation\n", describe_case( j.c ).c_str(), c == 77 ? "AddressSanitizer report" : "crash" );
+            std::printf( "REPRODUCED oracle=%s key=%s (run ends the process)\n", oracle.c_str(), key.c_str() );
+            return 1;
+         }
+      }
       const Verdict v = judge( j );
       print_verdict( j, v );
       if( a.num( "dump", 0 ) ) {
@@ -479,6 +489,30 @@ namespace
          write_replay( out, m, none, want, seed, index, reruns );
          std::printf( "SHRUNK oracle=%s reruns=%u replay=%s\n", want.c_str(), reruns, out.c_str() );
          std::printf( "case: %s\n", describe_case( m.c ).c_str() );
+         return 1;
+      }
+      if( a.num( "fork", 0 ) != 0 && !want.empty() ) {
+         // a non-fatal violation whose neighbourhood contains runs that end the process: everything in children
+         if( judge_forked( j, want ) != 1 ) {
+            std::printf( "NO-VIOLATION at index %" PRIu64 " (forked)\n", index );
+            return 0;
+         }
+         unsigned reruns = 0;
+         const Job m = shrink_job( j, want, reruns, true );
+         std::fflush( nullptr );
+         const pid_t pid = ::fork();
+         if( pid == 0 ) {
+            const Verdict vm = judge( m );
+            write_replay( out, m, vm, want, seed, index, reruns );
+            ::_exit( 0 );
+         }
+         int st = 0;
+         ::waitpid( pid, &st, 0 );
+         if( !( WIFEXITED( st ) && WEXITSTATUS( st ) == 0 ) ) {
+            Verdict none;
+            write_replay( out, m, none, want, seed, index, reruns );
+         }
+         std::printf( "SHRUNK oracle=%s reruns=%u replay=%s (forked)\n", want.c_str(), reruns, out.c_str() );
          return 1;
       }
       const Verdict v0 = judge( j );
